@@ -775,6 +775,10 @@ class Blockwise(ArrayExpr):
                     return None  # Non-unit step not supported
 
                 first, last = find_block_range(cumsum, start, stop)
+                if (first is None or last < first) and isinstance(adjust_chunks.get(out_ind[axis]), (tuple, list)):
+                    # An empty selection leaves one empty input block, which an
+                    # explicit per-block ``adjust_chunks`` tuple cannot describe.
+                    return None
                 if first is None:
                     block_ranges.append((0, -1))  # Empty
                     output_adjustments.append(slice(0, 0))
